@@ -23,6 +23,16 @@ func ToDescriptiveStats(ss *stats.StreamStats) *model.DescriptiveStats {
 }
 
 func ToOverviewStats(input *stats.Sample) *model.OverviewStats {
+	// an empty sample (e.g. a cycle that no iteration reached) summarises the empty multiset:
+	// all figures are 0 and the histogram has a single empty bin. Without this the NaN
+	// statistics of an empty sample lead to make([]uint32, int(NaN)) below, which panics.
+	if len(input.Xs) == 0 {
+		return &model.OverviewStats{
+			SD: Ptr(0.0), Min: Ptr(0.0), Max: Ptr(0.0), Mean: Ptr(0.0),
+			Q1: Ptr(0.0), Q2: Ptr(0.0), Q3: Ptr(0.0), Hist: make([]uint32, 1),
+		}
+	}
+
 	input.Sorted = false
 	input.Sort()
 
